@@ -31,6 +31,7 @@ type Exec struct {
 	ctr0     *Term
 	entrySt  *State
 	closures map[string]*closureInfo
+	modScopes []map[*ssa.BasicBlock]bool
 	globals  map[*ssa.Global]*Term
 }
 
@@ -380,9 +381,10 @@ func (x *Exec) baseEnv(fr *Frame, st *State) *Env {
 		e.vars[k] = v
 	}
 	if fr.contract != nil && len(fr.contract.Lets) > 0 {
-		e.lets = map[string]*Node{}
+		e.lets = map[string]*LetDef{}
 		for _, l := range fr.contract.Lets {
-			e.lets[l.Name] = l.Expr
+			l := l
+			e.lets[l.Name] = &l
 		}
 	}
 	e.locals = func(name string) (*Sym, bool) {
@@ -480,6 +482,10 @@ func (x *Exec) havoc(fr *Frame, ns, old *State, ms *ModSet, reach *Term, hint st
 			continue
 		}
 		nv := x.freshSym(id.t, "c."+id.name, ns.ctr, reach)
+		if kindOf(id.t) == KSlice && cur.L[1].Lit != nil && cur.L[1].Lit.Sign() == 0 && ms.offStable[a] {
+			// every assignment in the region is an append/make/nil: the offset stays 0
+			nv = &Sym{T: nv.T, L: []*Term{nv.L[0], cur.L[1], nv.L[2]}}
+		}
 		ns.cells[id] = nv
 	}
 	for _, k := range sortedFamKeys(ms.Fams) {
